@@ -525,6 +525,47 @@ class Body:
                 i = k
             i += 1
 
+    def rule_for_continue(self):
+        """R18: Verus has no `continue` in `for` loops. A guard at the top level of a `for` body —
+        `if C { P; continue; } REST` (no else branch, `continue` unlabelled and last in its block) — is read as
+        `if C { P } else { REST }`: the `continue;` is deleted, ` else {` is inserted after the guard and the closing brace before
+        the end of the loop body. Insertions and one deletion only, so other rules still apply inside. Any other `continue`
+        (nested deeper, labelled, in a let-else) is left alone and stays unsupported."""
+        toks = self.toks
+        n_done = 0
+        for (kw, bo, bc) in self.loops():
+            if toks[kw].text != "for":
+                continue
+            closers = 0
+            for (s0, e0) in stmt_spans(toks, bo, bc):
+                if not (toks[s0].kind == "ident" and toks[s0].text == "if"):
+                    continue
+                # the block of the if
+                j = s0 + 1
+                while not (toks[j].kind == "punct" and toks[j].text == "{"):
+                    if toks[j].kind == "punct" and toks[j].text in ("(", "["):
+                        j = match_close(toks, j)
+                    j += 1
+                c = match_close(toks, j)
+                if c != e0:
+                    continue        # has an else branch (or a trailing `;`)
+                inner = stmt_spans(toks, j, c)
+                if not inner:
+                    continue
+                (ls, le) = inner[-1]
+                if not (toks[ls].kind == "ident" and toks[ls].text == "continue" and le == ls + 1 and toks[le].text == ";"):
+                    continue
+                if any(t.kind == "ident" and t.text == "continue" for t in toks[j:ls]):
+                    continue
+                self.edits.append((toks[ls].start, toks[le].end, "", "R18-continue"))
+                self.insert(toks[c].end, " else {", "R18-continue")
+                closers += 1
+                n_done += 1
+            if closers:
+                self.insert(toks[bc].start, "}" * closers + " ", "R18-continue", order=-5 * 10 ** 12)
+        if n_done:
+            self.report.append(("R18-continue", f"{n_done} `if .. {{ ..; continue; }}` guard(s) of a for loop read as if/else over the rest of the loop body"))
+
     def rule_closure_underscore(self):
         """R7b: a closure parameter written `_` is renamed `__u` (Verus rejects `_` closure parameters)"""
         toks = self.toks
